@@ -662,11 +662,14 @@ where
     }
 
     fn update_needed_len(&mut self) {
-        self.needed_input_size = (self.last_index as f32
-            + self.chunk_size as f32
-                / (0.5 * self.resample_ratio as f32 + 0.5 * self.target_ratio as f32)
-            + self.interpolator.len() as f32)
-            .ceil() as usize;
+        // The step between output frames is ramped linearly from 1/resample_ratio
+        // to 1/target_ratio over the chunk, this is the total distance covered.
+        let t_ratio = 1.0 / self.resample_ratio;
+        let t_ratio_end = 1.0 / self.target_ratio;
+        let advance =
+            0.5 * (t_ratio + t_ratio_end) * self.chunk_size as f64 + 0.5 * (t_ratio_end - t_ratio);
+        self.needed_input_size =
+            (self.last_index + advance + self.interpolator.len() as f64).ceil() as usize;
     }
 }
 
